@@ -47,6 +47,7 @@ class World:
         self.handshakes_ok = 0
         self.handshakes_bad = 0
         self.bytes_moved = 0
+        self.hostile = []
 
     def note(self, *a):
         self.last_activity = time.time()
@@ -121,9 +122,82 @@ async def send(w, writer, data, chunk):
     w.last_activity = time.time()
 
 
+def noise_frames(rnd, permille):
+    """Well-formed frames a BEP3 client must skip: unknown ids (body below the frame limit) and keep-alives."""
+    out = b""
+    while permille and rnd.random() * 1000 < permille:
+        k = rnd.random()
+        if k < 0.3:
+            out += bytes(4)
+        else:
+            body = rnd.randbytes(rnd.choice([0, 0, 1, 3, 12, 13, 200, 16393, 65535]))
+            out += struct.pack(">IB", 1 + len(body), rnd.choice([9, 10, 20, 21, 42, 99, 128, 200, 254, 255])) + body
+    return out
+
+
+async def hostile(w, p, reader, writer, we_connect):
+    """Valid handshake, a few legal messages, then a malformed frame (or a truncated one and EOF).
+    Records whether and when the client closed the connection."""
+    rnd = random.Random(p["seed"])
+    rec = {"port": p["port"], "kind": p["kind"], "expect_close": p["expect_close"], "closed_after_s": None, "closed_early_at_step": None, "incoming": p["incoming"]}
+    w.hostile.append(rec)
+    my_hs = bytes([19]) + PROTO + bytes(8) + w.info_hash + p["id"].encode()
+
+    async def drain():
+        try:
+            while True:
+                b = await reader.read(65536)
+                if not b:
+                    return
+        except (ConnectionError, OSError):
+            return
+    try:
+        if we_connect:
+            await send(w, writer, my_hs, 0)
+        await asyncio.wait_for(reader.readexactly(68), 30)
+        if not we_connect:
+            await send(w, writer, my_hs, 0)
+        dr = asyncio.create_task(drain())
+        for k, st in enumerate(p["script"]):
+            if dr.done():
+                rec["closed_early_at_step"] = k
+                break
+            try:
+                await send(w, writer, bytes.fromhex(st["hex"]), st.get("chunk", 0))
+            except (ConnectionError, OSError):
+                rec["closed_early_at_step"] = k
+                break
+            if st.get("sleep_ms"):
+                await asyncio.sleep(st["sleep_ms"] / 1000)
+        t_last = time.time()
+        if p.get("then_close"):
+            writer.close()
+            rec["closed_after_s"] = -1
+            return
+        try:
+            await asyncio.wait_for(dr, p.get("close_within_s", 10))
+            rec["closed_after_s"] = round(time.time() - t_last, 3)
+            w.note("hostile", p["port"], p["kind"], "closed by client after", rec["closed_after_s"])
+        except asyncio.TimeoutError:
+            w.note("hostile", p["port"], p["kind"], "NOT closed by client")
+            rec["closed_after_s"] = None
+            rec["waited_s"] = round(time.time() - t_last, 3)
+    except (asyncio.IncompleteReadError, ConnectionError, asyncio.TimeoutError, OSError) as e:
+        rec["error"] = repr(e)
+    finally:
+        rec["done"] = True
+        try:
+            writer.close()
+        except Exception:
+            pass
+
+
 async def seeder(w, p, reader, writer, we_connect):
     """Honest (or corrupting) seeder persona over real TCP."""
+    if p.get("kind"):
+        return await hostile(w, p, reader, writer, we_connect)
     rnd = random.Random(p["seed"])
+    noise = p.get("noise_permille", 0)
     n = len(w.pieces)
     have = p["have"]
     chunk = p.get("chunk", 0)
@@ -143,10 +217,10 @@ async def seeder(w, p, reader, writer, we_connect):
         for i in range(n):
             if have[i]:
                 bf[i // 8] |= 0x80 >> (i % 8)
-        await send(w, writer, struct.pack(">IB", 1 + len(bf), 5) + bytes(bf), chunk)
+        await send(w, writer, noise_frames(rnd, noise) + struct.pack(">IB", 1 + len(bf), 5) + bytes(bf) + noise_frames(rnd, noise), chunk)
         if p.get("unchoke_delay_ms", 0) >= 0:
             await asyncio.sleep(p.get("unchoke_delay_ms", 0) / 1000)
-            await send(w, writer, struct.pack(">IB", 1, 1), chunk)
+            await send(w, writer, noise_frames(rnd, noise) + struct.pack(">IB", 1, 1), chunk)
         served = 0
         choked_once = False
         while True:
@@ -163,7 +237,7 @@ async def seeder(w, p, reader, writer, we_connect):
                     k = rnd.randrange(len(blk))
                     blk = blk[:k] + bytes([blk[k] ^ 0x10]) + blk[k + 1:]
                     w.note("peer", p["port"], "corrupts block", idx, beg)
-                msg = struct.pack(">IBII", 9 + len(blk), 7, idx, beg) + blk
+                msg = noise_frames(rnd, noise) + struct.pack(">IBII", 9 + len(blk), 7, idx, beg) + blk
                 d = p.get("disconnect_after_blocks")
                 if d is not None and served >= d:
                     if p.get("mid_frame"):
@@ -232,6 +306,7 @@ async def main():
     t_start = time.time()
     last_cpu, last_cpu_t = cpu_ticks(proc.pid), time.time()
     idle_since = None
+    complete_since = None
     while True:
         await asyncio.sleep(0.05)
         now = time.time()
@@ -250,8 +325,13 @@ async def main():
                 ok = False
                 break
         if ok:
-            verdict = "complete"
-            break
+            complete_since = complete_since or now
+            nh = sum(1 for p in sc["peers"] if p.get("kind"))
+            ports = set(p["port"] for p in sc["peers"] if p.get("kind"))
+            if ports <= set(h["port"] for h in w.hostile if h.get("done")) or now - complete_since > 14:
+                verdict = "complete"
+                break
+            continue  # download done, waiting for the hostile connections' outcome
         # logical stall: nothing moved on any socket, no tracker request, and the client burnt no CPU
         if now - last_cpu_t >= 1.0:
             c = cpu_ticks(proc.pid)
@@ -269,6 +349,13 @@ async def main():
             verdict, detail = "timeout", "wall clock limit without idle evidence"
             break
     await asyncio.sleep(0.2)  # let a possible extractor finish writing siblings
+    hwm = 0
+    try:
+        for l in open("/proc/%d/status" % proc.pid):
+            if l.startswith("VmHWM:"):
+                hwm = int(l.split()[1])
+    except Exception:
+        pass
     if proc.returncode is None:
         proc.kill()
         await proc.wait()
@@ -303,7 +390,7 @@ async def main():
         "piece_files": len(piece_files), "pieces": len(w.pieces), "piece_problems": problems[:3],
         "panics": panics, "sanitizer": san, "unexpected_files": extra[:3],
         "tracker_requests": w.tracker_requests, "handshakes_ok": w.handshakes_ok, "handshakes_bad": w.handshakes_bad,
-        "bytes_moved": w.bytes_moved, "log_tail": w.log[-25:], "stdout_tail": stdout[-600:],
+        "bytes_moved": w.bytes_moved, "hostile": w.hostile, "peak_rss_kb": hwm, "log_tail": w.log[-25:], "stdout_tail": stdout[-600:],
     }))
 
 
